@@ -3,6 +3,7 @@ package main
 import (
 	"bytes"
 	"fmt"
+	"reflect"
 	"strconv"
 	"time"
 
@@ -52,7 +53,7 @@ func directC20corners(rep *Report) {
 		var got data.Value
 		c := guarded(5e9, func() { got = f() })
 		rep.Evaluations++
-		if c != "" || got == nil || !(got.Equals(want) && fmt.Sprintf("%T", got) == fmt.Sprintf("%T", want)) {
+		if c != "" || got == nil || !((got.Equals(want) || reflect.DeepEqual(got, want)) && fmt.Sprintf("%T", got) == fmt.Sprintf("%T", want)) {
 			rep.Violations = append(rep.Violations, Viol{Key: "c20corner:" + key, What: what, Req: req("c20corner", hxs(key)), Impl: c + " " + fmt.Sprintf("%#v", got), Want: fmt.Sprintf("%#v", want)})
 		} else {
 			rep.DistinctNT++
@@ -72,6 +73,20 @@ func directC20corners(rep *Report) {
 		return data.New([]*c20Money{{Cents: 5}, nil}).(data.List)[1]
 	}, data.Null{})
 	check("marshaler-pointer", "a non-nil pointer to a marshaler converts through MarshalValue", func() data.Value { return data.New(&c20Money{Cents: 7}) }, data.String("$7"))
+	// named types: the KIND decides (a map keyed by a named string type is a map with string keys; named ints, floats,
+	// bools, strings, slices convert as their underlying kinds), at the top and nested
+	type locale string
+	type count int32
+	type ratio float32
+	type flag bool
+	type names []locale
+	check("named-string-keys", "a map whose key type is a named string type does not convert like a map[string]", func() data.Value { return data.New(map[locale]int{"en": 1, "fr": 2}) }, data.Map{"en": data.Int(1), "fr": data.Int(2)})
+	check("named-string-keys-nested", "a nested map whose key type is a named string type does not convert like a map[string]", func() data.Value {
+		return data.New(struct{ ByLocale map[locale][]count }{map[locale][]count{"en": {1, 2}}})
+	}, data.Map{"byLocale": data.Map{"en": data.List{data.Int(1), data.Int(2)}}})
+	check("named-scalars", "named scalar and slice types do not convert as their underlying kinds", func() data.Value {
+		return data.New([]interface{}{locale("de"), count(7), ratio(0.5), flag(true), names{"a", "b"}, map[locale]flag{"x": false}})
+	}, data.List{data.String("de"), data.Int(7), data.Float(0.5), data.Bool(true), data.List{data.String("a"), data.String("b")}, data.Map{"x": data.Bool(false)}})
 }
 
 func directC20render(g *G, rep *Report) {
